@@ -9,7 +9,7 @@ use std::collections::BTreeSet;
 use std::str::FromStr;
 use unic_locale::Locale;
 
-pub const RULE: &str = "Domain: bounded-exhaustive token sequences (full boundary alphabet to 3 | 4 subtags; 'en-' + 26-token locale alphabet to 4 | 5 further subtags; 'en-' + 12-token core alphabet to 6 | 7 further subtags, so that tfields followed by another extension lie inside the exhaustive region), proptest-generated well-formed locales with every extension shape, both u/t orders, random case/separator masks (G2), 1-3-edit near misses (G3), weighted raw bytes (G4), CLDR locale names with extension suffixes (G5). Oracle: independent three-zone classifier (must-accept with expected value / either with expected value if accepted / must-reject), cross-checked against a regex formulation on every input, plus token conservation. Duplicate keyword/tfield keys are out of scope and only counted. Non-trivial = the input has a one-byte subtag after the first subtag (an extension singleton is in play), or it is must-reject with a well-formed language-id prefix. Enumerated cases distinct by construction; generated ones counted through a hash set.";
+pub const RULE: &str = "Domain: bounded-exhaustive token sequences (full boundary alphabet to 3 | 4 subtags; 'en-' + 27-token locale alphabet to 4 | 5 further subtags; 'en-' + 12-token core alphabet to 6 | 7 further subtags, so that tfields followed by another extension lie inside the exhaustive region), proptest-generated well-formed locales with every extension shape, both u/t orders, random case/separator masks (G2), 1-3-edit near misses (G3), weighted raw bytes (G4), CLDR locale names with extension suffixes (G5). Oracle: independent three-zone classifier (must-accept with expected value / either with expected value if accepted / must-reject), cross-checked against a regex formulation on every input, plus token conservation. Duplicate keyword/tfield keys are out of scope and only counted. Non-trivial = the input has a one-byte subtag after the first subtag (an extension singleton is in play), or it is must-reject with a well-formed language-id prefix. Enumerated cases distinct by construction; generated ones counted through a hash set.";
 
 fn lower_tokens(b: &[u8]) -> BTreeSet<String> {
     model::split(b).iter().map(|t| model::lower(t)).collect()
